@@ -56,8 +56,24 @@ class ScriptedSource(ScheduleSource):
         self.n = 0
         self.polls: List[Dict[str, Any]] = []
         self.sent: set = set()
+        self.added: Dict[str, ScheduledTask] = {}     # schedules created through the public schedule_by_* API
+        self.list_latency = 0.0
+        self.cancel: set = set()
+        self.hooks: List[Any] = []                    # (instant, hook, schedule id)
+
+    async def add_schedule(self, schedule: ScheduledTask) -> None:
+        self.added[schedule.schedule_id] = schedule
+
+    async def pre_send(self, task: ScheduledTask) -> None:  # type: ignore[override]
+        self.hooks.append((self.now_us(), "pre_send", task.schedule_id))
+        if task.schedule_id in self.cancel:
+            from taskiq.exceptions import ScheduledTaskCancelledError
+
+            raise ScheduledTaskCancelledError
 
     def _task(self, e: Dict[str, Any]) -> ScheduledTask:
+        if e["id"] in self.added:
+            return self.added[e["id"]].model_copy()
         if "cron" in e:
             off = e.get("offset")
             co: Any = None
@@ -81,12 +97,15 @@ class ScriptedSource(ScheduleSource):
                 if e.get("add_at", 0) <= k and (e.get("remove_at") is None or k < e["remove_at"]):
                     listed.append(e["id"])
         self.polls.append({"t": self.now_us(), "k": k, "failed": failed, "listed": listed})
+        if self.list_latency:
+            await asyncio.sleep(self.list_latency)    # a source that needs I/O to answer
         if failed:
             raise RuntimeError("source down")
         by = {e["id"]: e for e in self.entries}
         return [self._task(by[i]) for i in listed]
 
     def post_send(self, task: ScheduledTask) -> None:
+        self.hooks.append((self.now_us(), "post_send", task.schedule_id))
         if task.cron is None:
             self.sent.add(task.schedule_id)
 
@@ -152,11 +171,33 @@ def run_sched(case: Dict[str, Any]) -> Dict[str, Any]:
             if s["kind"] == "label":
                 srcs.append(RecLabelSource(b, now_us))
             else:
-                srcs.append(ScriptedSource(f"s{si}", s["entries"], set(s.get("fail_polls", ())), now_us, base_us))
+                src = ScriptedSource(f"s{si}", s["entries"], set(s.get("fail_polls", ())), now_us, base_us)
+                src.list_latency = float(s.get("list_latency", 0.0))
+                src.cancel = set(s.get("cancel", ()))
+                srcs.append(src)
         sched = TaskiqScheduler(b, srcs)
         end_s = ((base_us // MIN_US + case["horizon_min"]) * MIN_US + 30 * 10**6 - base_us) / 1e6
 
         async def main() -> None:
+            from taskiq.kicker import AsyncKicker
+            from taskiq.scheduler.scheduled_task import CronSpec
+
+            for src_, s_ in zip(srcs, case["sources"]):
+                for e in s_["entries"]:
+                    if not e.get("via_api") or s_["kind"] == "label":
+                        continue
+                    k = AsyncKicker("t", b, {}).with_schedule_id(e["id"])
+                    if "spec" in e:     # schedule_by_cron with a CronSpec object (int or str fields)
+                        off = e.get("offset")
+                        co: Any = None
+                        if off:
+                            co = dtm.timedelta(microseconds=off["td_us"]) if "td_us" in off else off["zone"]
+                        await k.schedule_by_cron(src_, CronSpec(offset=co, **e["spec"]), e["id"])
+                    elif "cron" in e:
+                        await k.schedule_by_cron(src_, e["cron"], e["id"])
+                    else:
+                        T = clock.from_us(base_us + e["t_off_us"])
+                        await k.schedule_by_time(src_, T.replace(tzinfo=None) if e.get("naive") else T, e["id"])
             task = asyncio.ensure_future(R.run_scheduler_loop(sched))
             await asyncio.sleep(end_s)
             if task.done():
@@ -172,6 +213,7 @@ def run_sched(case: Dict[str, Any]) -> Dict[str, Any]:
             res["loop_exc"] = str(exc)
         res["kicks"] = b.kicks
         res["polls"] = {getattr(s, "name"): s.polls for s in srcs}
+        res["hooks"] = {getattr(s, "name"): list(getattr(s, "hooks", [])) for s in srcs}
         return res
     finally:
         clock.FakeDT.source = None
